@@ -134,6 +134,27 @@ def seed_sim():
     return notebook(cells, 5, {})
 
 
+def seed_prev():
+    """A notebook that carries the artefacts of an earlier conflicted nbdime merge that was committed as it was: recorded
+    metadata conflicts, conflict-marker cells and outputs, inline source markers, LOCAL_/REMOTE_ attachments."""
+    marker = lambda text: md_cell('<span style="color:red"><b>%s</b></span>' % text, id=None)
+    cells = [
+        code_cell("<<<<<<< local\nx = 1\n=======\nx = 2\n>>>>>>> remote\nprint(x)", outputs=[
+            stream("<<<<<<< local\n", name='stderr'), stream("1\n"), stream("=======\n", name='stderr'), stream("2\n"), stream(">>>>>>> remote\n", name='stderr'),
+        ], ec=None, id='p0', metadata={'nbdime-conflicts': {'local_diff': [{'op': 'add', 'key': 'tags', 'value': ['a']}],
+                                                            'remote_diff': [{'op': 'add', 'key': 'tags', 'value': ['b']}]}}),
+        dict(marker('<<<<<<< local'), id='p1'),
+        code_cell("local_cell()\n", id='p2'),
+        dict(marker('======='), id='p3'),
+        md_cell("remote cell ![i](attachment:a.png)\n", attachments={'a.png': {'image/png': PNG1}, 'LOCAL_a.png': {'image/png': PNG2}, 'REMOTE_a.png': {'image/png': PNG3}}, id='p4'),
+        dict(marker('>>>>>>> remote'), id='p5'),
+    ]
+    md = cp(KSPEC)
+    md['nbdime-conflicts'] = {'local_diff': [{'op': 'patch', 'key': 'kernelspec', 'diff': [{'op': 'replace', 'key': 'display_name', 'value': 'L'}]}],
+                              'remote_diff': [{'op': 'patch', 'key': 'kernelspec', 'diff': [{'op': 'replace', 'key': 'display_name', 'value': 'R'}]}]}
+    return notebook(cells, 5, md)
+
+
 def seeds():
     s = {
         'S45': seed_main(True),
@@ -142,6 +163,7 @@ def seeds():
         'Sempty': seed_empty(),
         'Sjson': seed_json(),
         'Ssim': seed_sim(),
+        'Sprev': seed_prev(),
     }
     for k, v in s.items():
         errs = validate_notebook(v)
@@ -379,6 +401,9 @@ def metadata_edits(md, toplevel=False):
         m = cp(md); m['collapsed'] = not md['collapsed']; out.append(('collapsed-flip', m))
     if 'scrolled' in md:
         m = cp(md); m['scrolled'] = 'auto'; out.append(('scrolled-auto', m))
+    if 'nbdime-conflicts' in md:
+        m = cp(md); del m['nbdime-conflicts']; out.append(('conflicts-unset', m))
+        m = cp(md); m['nbdime-conflicts'] = {'local_diff': [], 'remote_diff': []}; out.append(('conflicts-emptied', m))
     if 'level' in md:
         for lab, v in (('level-float', 1.0), ('level-true', True), ('level-2', 2)):
             if canon(md['level']) != canon(v):
@@ -548,6 +573,8 @@ FOCUS = {
                'src@0:terminate'),
     'meta': ('cellmeta@2:tags+extra', 'cellmeta@2:tags+other', 'cellmeta@2:collapsed-flip', 'cellmeta@2:custom=a1', 'cellmeta@2:custom=a2', 'cellmeta@2:level-2',
              'nbmeta:kspec-name', 'nbmeta:kspec-name:b', 'nbmeta:tags=new', 'nbmeta:x=lists'),
+    'prevmeta': ('nbmeta:conflicts-unset', 'nbmeta:conflicts-emptied', 'nbmeta:kspec-name', 'nbmeta:kspec-name:b', 'nbmeta:tags=new', 'nbmeta:tags=alt',
+                 'cellmeta@0:conflicts-unset', 'cellmeta@0:conflicts-emptied', 'cellmeta@0:tags=new', 'cellmeta@0:tags=alt', 'cellmeta@0:custom=a1', 'cellmeta@0:custom=a2'),
     'attachments': ('att@1:add:b1', 'att@1:add:b2', 'att@1:replace:2', 'att@1:replace:3', 'att@1:rename', 'att@1:add-mime', 'src@1:repl1:a', 'src@1:repl1:b'),
 }
 
